@@ -157,6 +157,7 @@ def run(ctx):
         ctx.sample(meta[len(meta) // 2])
     pwc_predictions(ctx)
     real_classifiers(ctx)
+    skactiveml_classifiers(ctx)
     ctx.extra["exhaustive"] = False
 
 
@@ -268,6 +269,69 @@ def real_classifiers(ctx):
             ctx.violation(f"IndexClassifierWrapper[{name}]", "prediction_differs", f"max |diff| = {np.max(np.abs(P - Pr)):.3g} after {ops}",
                           {"X": X.tolist(), "y": y.tolist(), "ops": ops, "seed": seed, "enforce_unique_samples": uniq, "idx_": np.asarray(w.idx_).tolist()},
                           what=f"IndexClassifierWrapper around SklearnClassifier({name}) predicts differently from a fresh copy trained on the implied data (history {ops})")
+
+
+def skactiveml_classifiers(ctx):
+    """IndexClassifierWrapper around the library's own classifiers with PARTIALLY LABELED y: fit on index sets that may be purely
+    unlabeled, partial_fit, fit again; predictions equal a fresh clone fitted once on (X[idx_], y_) - in particular a fit on
+    unlabeled indices only forgets whatever an earlier fit left in the model."""
+    from sklearn.base import clone
+    from skactiveml.classifier import ParzenWindowClassifier, SlidingWindowClassifier
+    from skactiveml.pool.utils import IndexClassifierWrapper
+    rng = ctx.rng("skclf")
+    mks = [("ParzenWindowClassifier", lambda s: ParzenWindowClassifier(classes=[0, 1], random_state=s)),
+           ("SlidingWindowClassifier[only_labeled]", lambda s: SlidingWindowClassifier(ParzenWindowClassifier(classes=[0, 1], random_state=s), classes=[0, 1], only_labeled=True, random_state=s)),
+           ("SlidingWindowClassifier", lambda s: SlidingWindowClassifier(ParzenWindowClassifier(classes=[0, 1], random_state=s), classes=[0, 1], random_state=s))]
+    for h in range(45 if ctx.is_quick else 450):
+        name, mk = mks[h % len(mks)]
+        n = int(rng.integers(8, 14))
+        X = rng.normal(size=(n, 2)) + rng.integers(0, 2, size=(n, 1)) * 2
+        y = rng.integers(0, 2, size=n).astype(float)
+        y[:2] = [0.0, 1.0]
+        unl = np.arange(n // 2, n)
+        y[unl] = np.nan
+        seed = int(rng.integers(0, 1000))
+        clf = mk(seed)
+        ipf = bool(h % 2)
+        ops = []
+        try:
+            w = IndexClassifierWrapper(clf, X, y, ignore_partial_fit=ipf)
+            i0 = np.concatenate([[0, 1], rng.choice(np.arange(2, n), size=int(rng.integers(1, 4)), replace=False)])
+            w.fit(i0, set_base_clf=bool(h % 3 == 0))
+            ops.append(("fit", i0.tolist()))
+            implied = list(i0)
+            for k in range(int(rng.integers(1, 4))):
+                r = rng.random()
+                if r < 0.45:
+                    i1 = rng.choice(unl, size=int(rng.integers(1, 4)), replace=False)      # purely unlabeled indices
+                    w.fit(i1)
+                    ops.append(("fit", i1.tolist()))
+                    implied = list(i1)
+                elif r < 0.6:
+                    i1 = rng.choice(n, size=int(rng.integers(1, 5)), replace=False)
+                    w.fit(i1)
+                    ops.append(("fit", i1.tolist()))
+                    implied = list(i1)
+                else:
+                    add = rng.choice(n, size=int(rng.integers(1, 3)), replace=False)
+                    w.partial_fit(add)
+                    ops.append(("partial_fit", add.tolist()))
+                    implied += list(add)
+            P = np.asarray(w.predict_proba(np.arange(n)), dtype=float)
+            # the natively incremental path keeps no idx_: the implied data is what the calls fed (a fit starts again)
+            imp = np.asarray(w.__dict__["idx_"] if "idx_" in w.__dict__ else implied, dtype=int)
+            ref = clone(clf).fit(X[imp], y[imp])
+            Pr = np.asarray(ref.predict_proba(X), dtype=float)
+        except Exception as e:
+            ctx.violation(f"IndexClassifierWrapper[{name}]", "exception", repr(e)[:300], {"ops": ops, "seed": seed}, what=f"wrapper around {name} raised {err_class(e)}")
+            continue
+        ctx.count("skactiveml_classifier:" + name)
+        if len(ops) >= 2:
+            ctx.nontriv(("skclf", name, X.tobytes(), repr(ops), seed))
+        if not np.allclose(P, Pr, rtol=1e-9, atol=1e-12):
+            ctx.violation(f"IndexClassifierWrapper[{name}]", "prediction_differs", f"max |diff| = {np.max(np.abs(P - Pr)):.3g} after {ops}",
+                          {"X": X.tolist(), "y": [None if v != v else v for v in y], "ops": ops, "seed": seed, "ignore_partial_fit": ipf, "implied_idx": imp.tolist()},
+                          what=f"IndexClassifierWrapper around {name} predicts differently from a fresh copy fitted on the implied data (history {ops})")
 
 
 def replay(ctx, path):
